@@ -259,6 +259,34 @@ def laws(rep, rnd, tier, vals, ivals, impl):
                               check="order", items=[datagen.canon(vals[x]) for x in items])
                 break
     n += perms
+    # ... and of keys of different kinds whose cross-kind order (by text) does not agree with the numeric order among the numbers
+    import datetime as _dt
+    mixed = [[V.ValueDate(_dt.datetime(2024, 1, 1)), V.ValueInt(3), V.ValueInt(100)], [V.ValueDate(_dt.datetime(2020, 1, 1)), V.ValueDecimal(2.5), V.ValueInt(1000), V.ValueString("a")],
+             [V.ValueDate(_dt.datetime(2024, 1, 1)), V.ValueInt(9), V.ValueInt(10), V.ValueInt(-1)], [V.ValueBoolean.fromval(True), V.ValueInt(1), V.ValueString("TRUE")],
+             [V.ValueString("10"), V.ValueInt(10), V.ValueInt(9), V.ValueDecimal(9.5)]]
+    for combo in mixed:
+        base_s = None
+        for perm in itertools.permutations(range(len(combo))):
+            s, m = V.ValueSet(), V.ValueMap()
+            for x in perm:
+                s.addItem(combo[x])
+                m.addItem(combo[x], V.ValueInt(x))
+            n += 1
+            if base_s is None:
+                base_s, base_m = s, m
+                continue
+            bad = None
+            if api_eq(s, base_s) is not True or api_eq(m, base_m) is not True or api_eq(base_m, m) is not True:
+                bad = "not =="
+            elif hash(s) != hash(base_s) or hash(m) != hash(base_m):
+                bad = "hash differently"
+            elif len(V.ValueSet().addItem(s).addItem(base_s).value) != 1 or len(V.ValueSet().addItem(m).addItem(base_m).value) != 1:
+                bad = "are two elements of a set"
+            elif V.ValueMap().addItem(m, V.ValueInt(1)).value.get(base_m) is None:
+                bad = "are not found as each other's map key"
+            if bad:
+                rep.violation("input", "sets/maps of the mixed keys %s built in two insertion orders %s" % ([str(x) for x in combo], bad), check="order-mixed", items=[str(x) for x in combo])
+                break
     # through the interpreter
     I = impl.new_interpreter(False, False)
     lits = [v for v in vals if datagen.kind(v) not in ("date",) and not (isinstance(v, float) and v != v)]
